@@ -67,12 +67,15 @@ Fixpoint accepted (alive opened : bool) (evs : list event) : list bytes :=
 
 
 (* ---- segments are created in sequence; data only ever goes to the newest one ---- *)
-(* state: the file created last, and the id the next segment must have *)
-Fixpoint wrs (cur : option path) (next : Z) (ops : list op) : option (option path * Z) :=
+(* state: the file created last, and the id the next segment must have (None: any - a muxer has just started and
+   carries on with the numbering of the live playlist it found; when it found none it starts at 0) *)
+Fixpoint wrs (cur : option path) (next : option Z) (ops : list op) : option (option path * option Z) :=
   match ops with
   | [] => Some (cur, next)
-  | OMkdirAll _ :: t => wrs cur 0 t                      (* a new muxer starts *)
-  | OCreate (PTs now id) :: t => if id =? next then wrs (Some (PTs now id)) (next + 1) t else None
+  | OMkdirAll _ :: t => wrs cur None t                   (* Muxer.Start *)
+  | OReadFile PLive false :: t => wrs cur (match next with None => Some 0 | _ => next end) t
+  | OCreate (PTs now id) :: t =>
+      if match next with Some n => id =? n | None => true end then wrs (Some (PTs now id)) (Some (id + 1)) t else None
   | OCreate _ :: t => None
   | OWrite p _ :: t | OClose p :: t =>
       match cur with Some q => if path_eqb p q then wrs cur next t else None | None => None end
